@@ -399,10 +399,66 @@ func relationOnCall(cl cmpLabel, operand string, outcome int8) string {
 
 // T3 / T4: wiring in handleConn and config provenance.
 func checkThrottleWiring(w *World, r *Report) {
+	checkThrottleWiringAs(w, r, "T3", true)
+}
+
+// runsOncePerConnection: the instruction executes at most once per invocation of the connection handler's set-up
+// function: it is not in a loop, and neither is any call on the (single-call-site) chain from the set-up function to it.
+func runsOncePerConnection(w *World, setup *ssa.Function, site ssa.Instruction, depth int) (bool, string) {
+	if inLoop(site.Block()) {
+		return false, "inside a loop of " + site.Parent().Name()
+	}
+	fn := site.Parent()
+	if fn == setup {
+		return true, ""
+	}
+	if depth > 3 {
+		return false, "call chain too deep"
+	}
+	var sites []ssa.Instruction
+	for _, c := range w.callersOf(fn) {
+		for _, b := range c.Blocks {
+			for _, in := range b.Instrs {
+				if ci, ok := in.(ssa.CallInstruction); ok && ci.Common().StaticCallee() == fn {
+					sites = append(sites, in)
+				}
+			}
+		}
+	}
+	if len(sites) != 1 {
+		return false, fmt.Sprintf("%s is called from %d sites", fn.Name(), len(sites))
+	}
+	return runsOncePerConnection(w, setup, sites[0], depth+1)
+}
+
+func checkThrottleWiringAs(w *World, r *Report, rule string, withConfig bool) {
 	runs, err := getMotionRuns(w)
 	if err != nil {
-		r.Unknown("T3", "wiring", "-", err.Error())
+		r.Unknown(rule, "wiring", "-", err.Error())
 		return
+	}
+	// one throttler - one token bucket - per connection: a second one built later (on a camera restart marker, per
+	// recording, ...) starts with a full bucket, and the frames stored over the connection are no longer bounded by
+	// one bucket plus its refill
+	if ci := analyseHandleConn(w); ci.err == nil {
+		nb := 0
+		for _, fn := range w.RepoFuncs() {
+			if fn.Pkg != ci.setup.Pkg {
+				continue
+			}
+			for _, b := range fn.Blocks {
+				for _, in := range b.Instrs {
+					if c, ok := in.(*ssa.Call); ok && c.Call.StaticCallee() != nil && strings.HasPrefix(c.Call.StaticCallee().Name(), "NewThrottledRecorder") {
+						nb++
+						ok1, why := runsOncePerConnection(w, ci.setup, in, 0)
+						r.Check(ok1, rule, "the throttled recorder (and its token bucket) is built once per connection", w.InstrPos(in), why)
+					}
+				}
+			}
+		}
+		r.Check(nb >= 1, rule, "the daemon builds a throttled recorder", "-", fmt.Sprint(nb))
+	} else {
+		r.Unknown(rule, "connection handler", "-", ci.err.Error())
 	}
 	c := runs.model.C
 	e := newTermEnv(w)
@@ -424,24 +480,27 @@ func checkThrottleWiring(w *World, r *Report) {
 		pos := w.InstrPos(st.Call)
 		// expected: select(Activate, NewThrottledRecorder(file recorder, &conf.Throttler, MinSecs+PreviewSecs, ...), file recorder)
 		if t.Op != "select" {
-			r.Fail("T3", "motion sink is the throttled recorder iff Throttler.Activate", pos, "the motion sink argument does not depend on Throttler.Activate: "+t.String(), "")
+			r.Fail(rule, "motion sink is the throttled recorder iff Throttler.Activate", pos, "the motion sink argument does not depend on Throttler.Activate: "+t.String(), "")
 			continue
 		}
 		cond, a, b := t.Args[0], t.Args[1], t.Args[2]
-		r.Check(strings.HasPrefix(cond.String(), "config.ThermalThrottler.Activate@"), "T3", "the choice is made on Throttler.Activate", pos, cond.String())
-		r.Check(a.Op == "call" && strings.HasSuffix(a.Name, "throttle.NewThrottledRecorder"), "T3", "Activate => the motion sink is a ThrottledRecorder", pos, a.String())
+		r.Check(strings.HasPrefix(cond.String(), "config.ThermalThrottler.Activate@"), rule, "the choice is made on Throttler.Activate", pos, cond.String())
+		r.Check(a.Op == "call" && strings.HasSuffix(a.Name, "throttle.NewThrottledRecorder"), rule, "Activate => the motion sink is a ThrottledRecorder", pos, a.String())
 		if a.Op == "call" && len(a.Args) >= 3 {
-			r.Check(a.Args[0].String() == b.String(), "T3", "the throttler wraps the same file recorder that is used when not activated", pos, a.Args[0].String()+" vs "+b.String())
+			r.Check(a.Args[0].String() == b.String(), rule, "the throttler wraps the same file recorder that is used when not activated", pos, a.Args[0].String()+" vs "+b.String())
 			wantMin := tadd(tleaf("recorder.RecorderConfig.MinSecs@main.Config.Recorder@param:main.Config"), tleaf("recorder.RecorderConfig.PreviewSecs@main.Config.Recorder@param:main.Config")).String()
-			r.Check(a.Args[2].String() == wantMin, "T3", "minimum recording length = MinSecs + PreviewSecs", pos, a.Args[2].String()+" (want "+wantMin+")")
-			r.Check(strings.Contains(a.Args[1].String(), "main.Config.Throttler@param:main.Config"), "T3", "throttler configured from Config.Throttler", pos, a.Args[1].String())
+			r.Check(a.Args[2].String() == wantMin, rule, "minimum recording length = MinSecs + PreviewSecs", pos, a.Args[2].String()+" (want "+wantMin+")")
+			r.Check(strings.Contains(a.Args[1].String(), "main.Config.Throttler@param:main.Config"), rule, "throttler configured from Config.Throttler", pos, a.Args[1].String())
 		}
 		dyn := dynamicTypes(motionArg, 0)
 		for _, d := range dyn {
-			r.Check((thr != nil && isPtrTo(d, thr)) || (cfr != nil && isPtrTo(d, cfr)), "T3", "motion sink dynamic type "+typeShort(d), pos, "")
+			r.Check((thr != nil && isPtrTo(d, thr)) || (cfr != nil && isPtrTo(d, cfr)), rule, "motion sink dynamic type "+typeShort(d), pos, "")
 		}
 	}
 	r.Check(n >= 1, "G4", "daemon wiring site found", "-", fmt.Sprint(n))
+	if !withConfig {
+		return
+	}
 	// T4: throttle.NewConfig unmarshals the thermal-throttler section over the defaults and returns it; ParseConfig stores it
 	nc := w.Func("throttle", "NewConfig")
 	if nc == nil {
